@@ -251,7 +251,7 @@ def _mk(dtypes, cols_values, rows=None, row_kind=None, nrows=None):
 
 
 def probes(ctx):
-    """One literal case per known finding (known_findings.d/C15.json), so that every KNOWN-FINDING line is printed on every run."""
+    """One literal case per known finding (known_findings.json), so that every KNOWN-FINDING line is printed on every run."""
     P = []
     NAN, NAT = float('nan'), 'NaT'
 
